@@ -313,6 +313,8 @@ add('WPCR',
 add('FFTF',
     Rule('X-FFTF', 'self.buf_tags.extend(tags.iter().filter(|t| t.pos() < $n:e).map(|t| Tag::new(t.pos() + $b:e, t.key(), t.val().clone())) $_:c);',
          'extend_shifted_tags(&mut self.buf_tags, &tags, $n, $b);', stmt_start=True),
+    Rule('X-FFTF', 'self.buf_tags.extend(tags.iter().filter(|t| t.pos() < $n:e).map(|t| Tag::new(t.pos(), t.key(), t.val().clone())) $_:c);',
+         'extend_shifted_tags(&mut self.buf_tags, &tags, $n, 0);', stmt_start=True),
     Rule('X-FFTF', 'self.buf.extend(input.iter().take($n:e).copied());', 'extend_from_window(&mut self.buf, &input, $n);', stmt_start=True),
     Rule('X-FFTF', 'self.buf.resize($n:e, Complex::default());', 'resize_zero(&mut self.buf, $n);', stmt_start=True),
     Rule('X-FFTF', 'self.engine.run(&mut self.buf);', 'engine_run(&mut self.engine, &mut self.buf);', stmt_start=True),
@@ -380,6 +382,16 @@ add('IL2P',
     Rule('X-IL2P', 'assert_eq![$a:e, $b:e];', 'if !(($a) == ($b)) { reach_panic(); }', stmt_start=True),
     Rule('X-IL2P', '&partial[..]', 'as_slice_u8(&partial)'),
     Rule('X-IL2P', '&header_bytes[..$n:e]', 'prefix_u8(&header_bytes, $n)'))
+
+# X-MISC (unit misc): generator fill idioms of signal_source.rs, the mutex of vector_sink.rs
+add('MISC',
+    Rule('X-MISC', 'for (to, from) in o.slice().iter_mut().zip(self.take($n:e)) $body:b', 'fill_complex(&mut o, self, $n);'),
+    Rule('X-MISC', 'o.slice().iter_mut().zip(self).map($c:a).for_each(drop);', 'fill_float(&mut o, self);', stmt_start=True),
+    Rule('X-MISC', 'Arc<Mutex<(Vec<T>, Vec<Tag>)>>', 'Storage<T>'),
+    Rule('X-MISC', 'let mut storage = self.storage.lock().unwrap();', 'let storage = &mut self.storage;', stmt_start=True),
+    Rule('X-MISC', 'storage.0.len()', 'storage.samples.len()'),
+    Rule('X-MISC', 'storage.0.extend(&$w:i.slice()[..$n:e]);', 'extend_samples(&mut storage.samples, &$w, $n);', stmt_start=True),
+    Rule('X-MISC', 'storage.1.extend($t:i);', 'extend_tags(&mut storage.tags, $t);', stmt_start=True))
 
 # X-ZC (unit zc): float expressions of zero_crossing.rs become calls of uninterpreted functions; the optional clock stream
 add('ZC',
